@@ -15,7 +15,8 @@ fn usz(s: &str) -> Option<usize> {
 
 fn tail(val: String, oracle: String, allocs: u64) -> String {
     let rep = verif::take();
-    let (loads, bad) = fmt_loads(&rep.loads, 1);
+    let (loads, _) = fmt_loads(&rep.loads, 1);
+    let bad = rep.bad_loads;
     let steps: u64 = rep.ticks.iter().sum();
     let strat = if rep.strategies.is_empty() { "-".to_string() } else { rep.strategies.join(",") };
     format!(
@@ -399,6 +400,7 @@ pub fn find_op(a: &[&str]) -> Option<String> {
     crate::vreset();
     verif::register_region(ph.ptr(), hay.len());
     verif::register_region(pn.ptr(), needle.len());
+    verif::set_tick_limit(crate::tick_limit(hay.len(), needle.len()));
     let ((r, s1, s2), allocs) =
         alloc_probe::measure(|| memchr::memmem::verif_hooks::find_with_state(&f, skips, skipped, ph.slice()));
     Some(tail(format!("{}/{}:{}", fmt_opt(r), s1, s2), fmt_opt(naive_find(&hay, &needle)), allocs))
@@ -454,6 +456,7 @@ pub fn rfind_op(a: &[&str]) -> Option<String> {
     crate::vreset();
     verif::register_region(ph.ptr(), hay.len());
     verif::register_region(pn.ptr(), needle.len());
+    verif::set_tick_limit(crate::tick_limit(hay.len(), needle.len()));
     let (r, allocs) = alloc_probe::measure(|| f.rfind(ph.slice()));
     Some(tail(fmt_opt(r), fmt_opt(naive_rfind(&hay, &needle)), allocs))
 }
@@ -470,6 +473,7 @@ pub fn oneshot_op(a: &[&str]) -> Option<String> {
     crate::vreset();
     verif::register_region(ph.ptr(), hay.len());
     verif::register_region(pn.ptr(), needle.len());
+    verif::set_tick_limit(crate::tick_limit(hay.len(), needle.len()));
     let (r, oracle, allocs) = match a[1] {
         "fwd" => {
             let (r, al) = alloc_probe::measure(|| memchr::memmem::find(ph.slice(), pn.slice()));
@@ -529,6 +533,7 @@ pub fn finditer_op(a: &[&str]) -> Option<String> {
     verif::set_trace(false);
     verif::register_region(ph.ptr(), hay.len());
     verif::register_region(pn.ptr(), needle.len());
+    verif::set_tick_limit(crate::tick_limit(hay.len(), needle.len()));
     let expect = greedy_fwd(&hay, &needle);
     let mut k = 0usize;
     let mut out = Vec::new();
@@ -593,6 +598,7 @@ pub fn rfinditer_op(a: &[&str]) -> Option<String> {
     verif::set_trace(false);
     verif::register_region(ph.ptr(), hay.len());
     verif::register_region(pn.ptr(), needle.len());
+    verif::set_tick_limit(crate::tick_limit(hay.len(), needle.len()));
     let expect = greedy_rev(&hay, &needle);
     let mut k = 0usize;
     let mut out = Vec::new();
